@@ -51,9 +51,9 @@ Definition agree (c : case) : bool :=
       N.eqb code (ob_exit o) && str_eqb out (ob_stdout o) && str_eqb err (ob_stderr o)
       && set_eqb w (ob_written o) && is_nil (ob_disturbed o)
   | Crash log w =>
-      (* a panic: status 0 (see Model.exit_status), nothing on stdout, the progress lines and then the
+      (* a panic: status 101 (see Model.exit_status), nothing on stdout, the progress lines and then the
          panic message on stderr *)
-      N.eqb (ob_exit o) 0 && is_nil (ob_stdout o)
+      N.eqb (ob_exit o) 101 && is_nil (ob_stdout o)
       && starts_with (log ++ [10] ++ s "thread 'main'") (ob_stderr o)
       && set_eqb w (ob_written o) && is_nil (ob_disturbed o)
   end.
